@@ -76,7 +76,7 @@ def tsgen_items(ctx, n_items):
     """Sweep (TLC) draws TSGen tree sequences with their tallies; Rescale (TLC) evaluates them"""
     from .. import build
     q = ctx.quick
-    insts = sc.generate(ctx, "c37_gen", simulate=320 if q else 6000, NS=3, NI=3, L=2, max_muts=4,
+    insts = sc.generate(ctx, "c37_gen", simulate=200 if q else 6000, NS=3, NI=3, L=2, max_muts=4,
                         tree_filter="simplified")
     seen, rows, items = set(), [], {}
     for inst in insts:
